@@ -702,3 +702,208 @@ Proof. split; [exact deep_equal_nan|exact (proj1 deep_equal_func)]. Qed.
 (* the code that exists: a defined type never carries ExtraStar (type P *int stores main.P) *)
 Lemma es_named_fixed pkg name targs und : es true (TNamed pkg name targs und) = false.
 Proof. reflexivity. Qed.
+
+(* ================================================================== *)
+(* 5. reflect.Value: integer get / set / convert / overflow             *)
+(* ================================================================== *)
+From LLGoV Require Import Lib.BV.
+Local Open Scope Z_scope.
+
+Ltac norm_pow :=
+  repeat match goal with
+         | |- context [2 ^ ?n] => let v := eval vm_compute in (2 ^ n) in change (2 ^ n) with v
+         | H : context [2 ^ ?n] |- _ => let v := eval vm_compute in (2 ^ n) in change (2 ^ n) with v in H
+         end.
+Ltac euclid := Z.to_euclidean_division_equations; lia.
+
+Lemma kbits_wf k : wf_w (kbits k).
+Proof. unfold wf_w. destruct k; cbn; auto. Qed.
+
+(* truncating to w bits after truncating to 64 *)
+Lemma wrap_wrap64 w x : wf_w w -> wrap w (wrap 64 x) = wrap w x.
+Proof. intros Hw. unfold wrap. widths Hw; norm_pow; euclid. Qed.
+
+(* the signed reading of the w-bit pattern of a number that fits w bits signed *)
+Lemma sgn_wrap_id w x : wf_w w -> - 2 ^ (w - 1) <= x < 2 ^ (w - 1) -> sgn w (wrap w x) = x.
+Proof.
+  intros Hw H. unfold sgn, wrap. widths Hw; cbn [Z.sub Z.add Z.opp Z.pos_sub Z.succ_double Z.pred_double Z.double Pos.pred_double] in *;
+    norm_pow; repeat match goal with |- context [?a <? ?b] => destruct (Z.ltb_spec a b) end; euclid.
+Qed.
+
+Lemma sgn_wrap_range w x : wf_w w -> - 2 ^ (w - 1) <= sgn w (wrap w x) < 2 ^ (w - 1).
+Proof. intros Hw. apply sgn_range; [exact Hw|]. apply wrap_range. widths Hw; lia. Qed.
+
+Lemma pow_le_63 w : wf_w w -> 2 ^ (w - 1) <= 2 ^ 63.
+Proof. intros Hw. widths Hw; norm_pow; lia. Qed.
+Lemma pow_le_64 w : wf_w w -> 2 ^ w <= 2 ^ 64.
+Proof. intros Hw. widths Hw; norm_pow; lia. Qed.
+
+Lemma wf64 : wf_w 64. Proof. unfold wf_w. auto. Qed.
+
+(* a value of kind k fits the 64-bit reading of its own signedness *)
+Lemma krange_signed k x : ksigned k = true -> krange k x -> - 2 ^ 63 <= x < 2 ^ 63.
+Proof.
+  unfold krange. intros ->. intros H. pose proof (pow_le_63 (kbits k) (kbits_wf k)).
+  change (64 - 1) with 63 in *. lia.
+Qed.
+Lemma krange_unsigned k x : ksigned k = false -> krange k x -> 0 <= x < 2 ^ 64.
+Proof. unfold krange. intros ->. intros H. pose proof (pow_le_64 (kbits k) (kbits_wf k)). lia. Qed.
+
+(* reading back the Value that holds x gives x, in both storage forms *)
+Lemma read_ival_of k indir x : krange k x -> value_read (ival_of k indir x) = x.
+Proof.
+  intros H. unfold value_read, ival_of, value_int, value_uint. cbn [iv_kind iv_indir iv_word].
+  destruct (ksigned k) eqn:S.
+  - destruct indir.
+    + apply sgn_wrap_id; [apply kbits_wf|]. unfold krange in H. now rewrite S in H.
+    + apply sgn_wrap_id; [apply wf64|]. exact (krange_signed k x S H).
+  - destruct indir.
+    + apply wrap_small. unfold krange in H. now rewrite S in H.
+    + apply wrap_small. exact (krange_unsigned k x S H).
+Qed.
+
+(* the word cvtInt / cvtUint hand to makeInt is the 64-bit pattern of the source value *)
+Lemma cvt_bits k indir x : krange k x ->
+  (if ksigned k then wrap 64 (value_int (ival_of k indir x)) else value_uint (ival_of k indir x)) = wrap 64 x.
+Proof.
+  intros H. pose proof (read_ival_of k indir x H) as R. unfold value_read in R.
+  cbn [iv_kind ival_of] in R. destruct (ksigned k) eqn:S.
+  - now rewrite R.
+  - rewrite R. symmetry. apply wrap_small. exact (krange_unsigned k x S H).
+Qed.
+
+(* makeInt narrows to the target kind: the word it stores is the 64-bit pattern of T(x) *)
+Lemma narrow_bits_spec k x : narrow_bits k (wrap 64 x) = wrap 64 (go_conv k x).
+Proof.
+  unfold go_conv. destruct k; cbn [narrow_bits ksigned kbits];
+    rewrite ?wrap_wrap64 by (unfold wf_w; auto); try reflexivity.
+  - (* int64 *) symmetry. apply wrap_sgn; [apply wf64|apply wrap_range; lia].
+  - (* int *) symmetry. apply wrap_sgn; [apply wf64|apply wrap_range; lia].
+  - (* uint8 *) symmetry. apply wrap_small. pose proof (wrap_range 8 x ltac:(lia)). unfold in_range in *. norm_pow. lia.
+  - symmetry. apply wrap_small. pose proof (wrap_range 16 x ltac:(lia)). unfold in_range in *. norm_pow. lia.
+  - symmetry. apply wrap_small. pose proof (wrap_range 32 x ltac:(lia)). unfold in_range in *. norm_pow. lia.
+  - symmetry. apply wrap_wrap.
+  - symmetry. apply wrap_wrap.
+  - symmetry. apply wrap_wrap.
+Qed.
+
+Lemma go_conv_range k x : krange k (go_conv k x).
+Proof.
+  unfold krange, go_conv. destruct (ksigned k).
+  - apply sgn_wrap_range, kbits_wf.
+  - apply wrap_range. pose proof (kbits_wf k) as Hw. widths Hw; lia.
+Qed.
+
+(* Value.Convert between integer kinds: the result holds Go's T(x) *)
+Lemma convert_int_value src dst indir x : krange src x ->
+  convert_int true (ival_of src indir x) dst = ival_of dst false (go_conv dst x).
+Proof.
+  intros H. unfold convert_int, cvt_int, cvt_uint, make_int. cbn [iv_kind ival_of].
+  pose proof (cvt_bits src indir x H) as B. cbn [ival_of] in B.
+  destruct (ksigned src); rewrite B, narrow_bits_spec; reflexivity.
+Qed.
+
+Lemma convert_int_go src dst indir x : krange src x ->
+  conv_read true src dst indir x = go_conv dst x.
+Proof.
+  intros H. unfold conv_read. rewrite (convert_int_value src dst indir x H).
+  apply read_ival_of, go_conv_range.
+Qed.
+
+(* before the repair makeInt kept the whole word: int(-1) -> uint8 read back as 2^64-1,
+   int(128) -> int8 as 128 *)
+Lemma convert_int_unfixed_wrong :
+  conv_read false KInt KUint8 false (-1) = 18446744073709551615 /\ go_conv KUint8 (-1) = 255 /\
+  conv_read false KInt KInt8 true 128 = 128 /\ go_conv KInt8 128 = -128.
+Proof. vm_compute. repeat split. Qed.
+
+(* SetInt / SetUint then Int / Uint: the value narrowed to the kind *)
+Lemma set_get k x : set_read k x = Some (go_conv k x).
+Proof.
+  unfold set_read, set_int, set_uint, go_conv, value_read, value_int, value_uint, ival_of.
+  destruct (ksigned k) eqn:S; cbn [iv_indir iv_kind iv_word]; rewrite S; reflexivity.
+Qed.
+
+Lemma go_conv_id k x : krange k x -> go_conv k x = x.
+Proof.
+  unfold krange, go_conv. destruct (ksigned k); intros H.
+  - apply sgn_wrap_id; [apply kbits_wf|exact H].
+  - apply wrap_small. exact H.
+Qed.
+
+(* the shift pair of OverflowInt / OverflowUint computes the narrowed value *)
+Lemma shifts_i64 w x : wf_w w -> - 2 ^ 63 <= x < 2 ^ 63 ->
+  shr_i64 (shl_i64 x (64 - w)) (64 - w) = sgn w (wrap w x).
+Proof.
+  intros Hw H. unfold shr_i64, shl_i64, sgn, wrap.
+  widths Hw; cbn [Z.sub Z.add Z.opp Z.pos_sub Z.succ_double Z.pred_double Z.double Pos.pred_double] in *; norm_pow;
+    repeat match goal with |- context [?a <? ?b] => destruct (Z.ltb_spec a b) end; euclid.
+Qed.
+Lemma shifts_u64 w x : wf_w w -> 0 <= x < 2 ^ 64 ->
+  shr_u64 (shl_u64 x (64 - w)) (64 - w) = wrap w x.
+Proof.
+  intros Hw H. unfold shr_u64, shl_u64, wrap.
+  widths Hw; cbn [Z.sub Z.add Z.opp Z.pos_sub Z.succ_double Z.pred_double Z.double Pos.pred_double] in *; norm_pow; euclid.
+Qed.
+
+(* OverflowInt(x) for an int64 x, OverflowUint(x) for a uint64 x: true exactly when x is not a
+   value of the kind *)
+Lemma overflow_spec k x :
+  (if ksigned k then - 2 ^ 63 <= x < 2 ^ 63 else 0 <= x < 2 ^ 64) ->
+  overflow k x = true <-> ~ krange k x.
+Proof.
+  intros H. unfold overflow, overflow_int, overflow_uint. destruct (ksigned k) eqn:S.
+  - rewrite (shifts_i64 (kbits k) x (kbits_wf k) H). rewrite negb_true_iff, Z.eqb_neq. split.
+    + intros Hne Hr. apply Hne. symmetry. apply sgn_wrap_id; [apply kbits_wf|].
+      unfold krange in Hr. now rewrite S in Hr.
+    + intros Hn E. apply Hn. unfold krange. rewrite S. rewrite E. apply sgn_wrap_range, kbits_wf.
+  - rewrite (shifts_u64 (kbits k) x (kbits_wf k) H). rewrite negb_true_iff, Z.eqb_neq. split.
+    + intros Hne Hr. apply Hne. symmetry. apply wrap_small. unfold krange in Hr. now rewrite S in Hr.
+    + intros Hn E. apply Hn. unfold krange. rewrite S. rewrite E. apply wrap_range.
+      pose proof (kbits_wf k) as Hw. widths Hw; lia.
+Qed.
+
+(* ---------- floats ---------- *)
+Section FloatProofs.
+  Variables (f32 f64 : Type) (widen : f32 -> f64) (narrow : f64 -> f32) (of_int : Z -> f64) (to_int : f64 -> Z).
+  (* the laws of IEEE-754 rounding that the statements need *)
+  Hypothesis narrow_widen : forall x, narrow (widen x) = x.
+  Hypothesis int53_exact : forall n, Z.abs n <= 2 ^ 53 -> to_int (of_int n) = n.
+  Hypothesis int24_exact : forall n, Z.abs n <= 2 ^ 24 -> widen (narrow (of_int n)) = of_int n.
+
+  Lemma widen_injective x y : widen x = widen y -> x = y.
+  Proof. intros E. rewrite <- (narrow_widen x), <- (narrow_widen y). now rewrite E. Qed.
+
+  Notation cvtF := (cvt_float f32 f64 widen narrow).
+  Notation valF := (value_float f32 f64 widen).
+
+  (* float32 -> float64 -> float32 and the identity conversions return the operand *)
+  Lemma float_widen_narrow v : cvtF (cvtF v KFloat64) (fkind_of f32 f64 v) = v.
+  Proof. destruct v; cbn; [now rewrite narrow_widen|reflexivity]. Qed.
+  Lemma float_same_kind v : cvtF v (fkind_of f32 f64 v) = v.
+  Proof. destruct v; reflexivity. Qed.
+  (* widening keeps the value and loses nothing *)
+  Lemma float_widen_value v : valF (cvtF v KFloat64) = valF v.
+  Proof. destruct v; reflexivity. Qed.
+  Lemma float_widen_injective x y : cvtF (F32 f32 f64 x) KFloat64 = cvtF (F32 f32 f64 y) KFloat64 -> x = y.
+  Proof. cbn. intros E. inversion E. now apply widen_injective. Qed.
+
+  (* integer -> float -> integer is Go's integer conversion as long as the float is exact *)
+  Lemma int_float64_int src dst indir x : krange src x -> Z.abs x <= 2 ^ 53 ->
+    value_read (cvt_float_int f32 f64 widen to_int true
+                  (cvt_int_float f32 f64 narrow of_int (ival_of src indir x) KFloat64) dst) = go_conv dst x.
+  Proof.
+    intros H Hx. unfold cvt_int_float, cvt_float_int, make_float, value_float, make_int.
+    rewrite (read_ival_of src indir x H), (int53_exact x Hx), narrow_bits_spec.
+    exact (read_ival_of dst false (go_conv dst x) (go_conv_range dst x)).
+  Qed.
+  Lemma int_float32_int src dst indir x : krange src x -> Z.abs x <= 2 ^ 24 ->
+    value_read (cvt_float_int f32 f64 widen to_int true
+                  (cvt_int_float f32 f64 narrow of_int (ival_of src indir x) KFloat32) dst) = go_conv dst x.
+  Proof.
+    intros H Hx. unfold cvt_int_float, cvt_float_int, make_float, value_float, make_int.
+    rewrite (read_ival_of src indir x H), (int24_exact x Hx), (int53_exact x), narrow_bits_spec.
+    - exact (read_ival_of dst false (go_conv dst x) (go_conv_range dst x)).
+    - assert (2 ^ 24 <= 2 ^ 53) by (norm_pow; lia). lia.
+  Qed.
+End FloatProofs.
